@@ -3,12 +3,12 @@ module verif/harness
 go 1.18
 
 require (
+	git.sr.ht/~mariusor/go-xsd-duration v0.0.0-20220703122237-02e73435a078
 	github.com/go-ap/activitypub v0.0.0
 	github.com/valyala/fastjson v1.6.4
 )
 
 require (
-	git.sr.ht/~mariusor/go-xsd-duration v0.0.0-20220703122237-02e73435a078 // indirect
 	github.com/go-ap/errors v0.0.0-20240910140019-1e9d33cc1568 // indirect
 	github.com/go-ap/jsonld v0.0.0-20221030091449-f2a191312c73 // indirect
 )
